@@ -126,6 +126,10 @@ type Exec struct {
 	oblNames  map[string]int
 	topFrame  *Frame
 	calledContracts map[string]bool
+	topFn           *ssa.Function   // function under verification
+	abstract        map[string]bool // abstract-calls of its contract
+	ccBindings      []V // closure bindings of the call being applied modularly
+	goMemo          map[string]V // callGo results by function, argument terms and heap version
 	curCall   *ssa.CallCommon
 	specMode  int
 	kfs       []*KnownFinding
